@@ -86,9 +86,10 @@ PROPS["C14"] = {
 PROPS["C03"] = {
     "gen": ["Stage", "Pyramid"],
     "trusted_base": ["the multiprocessing model of DESIGN.md §3 (Queue = buffer→feeder→pipe with one reader lock and a bounded semaphore; a get times out only when it cannot take the lock or the pipe is empty; Event = atomic flag; join returns after the target returned) — vf/simmp.py implements exactly this and the Lean model has one transition per simmp step",
-                     "liveness (every fair execution terminates) is not yet a theorem: terminations are observed on every explored schedule, hangs are detected by the simulator"],
+                     "liveness is proved in the form `from every reachable state some continuation returns` (Props/C03Live: no deadlock, termination never becomes impossible); that a *fair* scheduler takes such a continuation is the usual fairness argument, not formalised; hangs of the real code are detected by the simulator"],
     "assumptions": COMMON_ASSUME + ["callbacks do not raise (C19 covers failures)"],
-    "partial": "termination under fairness (stage_progress) is checked by exploration only",
+    "partial": "",
+    "props_files": ["C03", "C03Live"],
 }
 
 PROPS["C10"] = {
@@ -218,7 +219,7 @@ LEVEL_TEXT = {
         "technique": "Lean 4 proof (inductive invariant over all interleavings) + trace refinement checked by execution",
     },
     "C03": {
-        "text": "The producer statement order, queue capacities and the workers' shutdown test are re-extracted from the four stage implementations each run. A transition system with one transition per multiprocessing primitive models producer, feeder and n workers; a 14-clause invariant is proved inductive for every number of workers, capacity, item list and interleaving (time-outs firing whenever a receive is impossible). Corollaries: no item is processed more often than produced (exactly-one worker for distinct items); when the producer has returned all workers have exited, queue and buffers are empty and the processed items are a permutation of the produced ones. The original step order (flag read after an empty poll) is refuted by an 11-step witness. The real visit_leaves / transform / multi_tan / multi_wcs run under a deterministic scheduler (random, biased, and bounded-exhaustive schedules) and every trace is replayed through the Lean transition function; real-process smoke runs.",
+        "text": "The producer statement order, queue capacities and the workers' shutdown test are re-extracted from the four stage implementations each run. A transition system with one transition per multiprocessing primitive models producer, feeder and n workers; a 14-clause invariant is proved inductive for every number of workers, capacity, item list and interleaving (time-outs firing whenever a receive is impossible). Corollaries: no item is processed more often than produced (exactly-one worker for distinct items); when the producer has returned all workers have exited, queue and buffers are empty and the processed items are a permutation of the produced ones. The original step order (flag read after an empty poll) is refuted by an 11-step witness. Liveness (Props/C03Live): with a second invariant and a lexicographic measure (item positions, producer counter, worker distances) every non-returned reachable state has an enabled transition that decreases the measure, hence a continuation that returns (`stage_progress`). The real visit_leaves / transform / multi_tan / multi_wcs run under a deterministic scheduler (random, biased, and bounded-exhaustive schedules) and every trace is replayed through the Lean transition function; real-process smoke runs.",
         "note": "trusted: Lean kernel; the multiprocessing semantics stated in DESIGN.md; simmp; fact extraction from the stage sources.",
         "technique": "Lean 4 proof (inductive invariant over all interleavings) + trace refinement checked by execution",
     },
